@@ -112,7 +112,7 @@ GuardsCtor2(e) ==
 ApplyInst2(e) ==
     [cs EXCEPT !.inst = (e.id :> [reg |-> e.reg, outs |-> {1}, owner |-> "prov", life |-> "singleton", disp |-> DispOf(cs.cfg, e.reg, 1),
                                   value |-> TRUE, th |-> "main", born |-> l, ready |-> l, returned |-> FALSE, closed |-> 0,
-                                  discarded |-> FALSE, failed |-> FALSE, deps |-> {}]) @@ @]
+                                  closedAt |-> 0, discarded |-> FALSE, failed |-> FALSE, deps |-> {}]) @@ @]
 
 ApplyCtor2(e) ==
     LET r == Reg(cs.cfg, e.reg)
@@ -122,7 +122,7 @@ ApplyCtor2(e) ==
                                    disp |-> LET o == CHOOSE x \in DOMAIN e.outs : e.outs[x] = i
                                             IN DispOf(cs.cfg, e.reg, o) /\ o \notin Rm(r),   \* a removed output is dropped, not tracked
                                    value |-> FALSE,
-                                   th |-> e.th, born |-> l, ready |-> 0, returned |-> FALSE, closed |-> 0, discarded |-> FALSE, failed |-> FALSE,
+                                   th |-> e.th, born |-> l, ready |-> 0, returned |-> FALSE, closed |-> 0, closedAt |-> 0, discarded |-> FALSE, failed |-> FALSE,
                                    deps |-> UNION {Range(e.args[j].ids) : j \in DOMAIN e.args}]]
         usedTr == {j \in UNION {Range(e.args[b].ids) : b \in DOMAIN e.args} : j \in Ids /\ cs.inst[j].life = "transient"}
     IN [cs EXCEPT !.inst = recs @@ @, !.handed = @ \cup usedTr]
@@ -163,7 +163,7 @@ ApplyClose2(e) ==
     IF e.inst \notin Ids THEN cs
     ELSE LET owner == cs.inst[e.inst].owner
              cov == {th \in DOMAIN cs.curs : cs.curs[th].op \in {"close", "closeprov"} /\ Covers(cs.curs[th], owner)}
-         IN [cs EXCEPT !.inst = [@ EXCEPT ![e.inst] = [@ EXCEPT !.closed = @ + 1, !.discarded = IsDiscard(e), !.failed = e.outcome = "err"]],
+         IN [cs EXCEPT !.inst = [@ EXCEPT ![e.inst] = [@ EXCEPT !.closed = @ + 1, !.closedAt = l, !.discarded = IsDiscard(e), !.failed = e.outcome = "err"]],
                        !.fails = IF e.outcome = "err" THEN @ \cup {[inst |-> e.inst, line |-> l, closer |-> e.th, cov |-> cov]} ELSE @]
 
 \* the scopes a Close answers for: those whose completion it waited for, and - through the watcher that closed
@@ -255,6 +255,14 @@ GuardsObs2(e) ==
      CG("no_goroutine_left", {"C14", "C09"}, cs.pclosed => e.goroutines <= 0),
      CG("closed_scopes_unreachable", {"C14"}, cs.pclosed => e.alive_scopes = <<>>),
      CG("instances_unreachable", {"C14"}, cs.pclosed => e.alive_insts = <<>>),
+     \* looking back at the whole execution: whatever a successfully created scope owned was disposed before
+     \* anything its parent scope owned (discarded results of refused stores aside)
+     CG("children_disposed_before_parent_instances", {"C11"},
+          \A sc \in SNames \ {"root"} :
+             LET p == IF cs.scopes[sc].parent = NONE THEN "root" ELSE cs.scopes[sc].parent IN
+             \A i, j \in Ids :
+                (cs.inst[i].owner = sc /\ cs.inst[j].owner = p /\ cs.inst[i].closedAt > 0 /\ cs.inst[j].closedAt > 0
+                 /\ ~cs.inst[i].discarded /\ ~cs.inst[j].discarded) => cs.inst[i].closedAt < cs.inst[j].closedAt),
      CG("refused_creation_leaves_nothing", {"C14"}, \A i \in DOMAIN e.orphans : e.orphans[i] = "canceled"),
      CG("contexts_cancelled", {"C14", "C13"}, cs.pclosed => \A s \in (SNames \ {"root"}) \cap DOMAIN e.ctx : e.ctx[s] = "canceled")}
 
